@@ -140,7 +140,10 @@ slicemultiply(struct ndsparse *a, cholmod_sparse *b, int dim,
 {
 	cholmod_triplet *section;
 	cholmod_sparse *ssection;
-	int cols, i, j, k, stride;
+	/* products of index ranges and flattened indices exceed 32 bits for
+	 * large tables */
+	long cols, i, j, stride;
+	int k;
 
 	/* Check that the dimensions match */
 	if (b->nrow != a->ranges[dim])
